@@ -117,7 +117,7 @@ extern "C" int LLVMFuzzerTestOneInput(const uint8_t *data, size_t size) {
   int closed_fd = dup(w.pipes[0][0]); close(closed_fd);
 
   for (int step = 0; step < 48; step++) {
-    int op = s.below(40);
+    int op = s.below(43);
     if (op == 0) break;
     bool faulty = s.chance(1, 3);
     if (faulty) arm_fault(s);
@@ -163,7 +163,7 @@ extern "C" int LLVMFuzzerTestOneInput(const uint8_t *data, size_t size) {
       case 16: { int b = s.below(3); if (w.buf[b]) { std::string d(s.pick((const int[]){1, 100, 600, 5000}), 'x'); OP("evbuffer_add", r = evbuffer_add(w.buf[b], d.data(), d.size())); note(r);
                    OP("evbuffer_add_printf", r = evbuffer_add_printf(w.buf[b], "%d\r\n", step)); OP("evbuffer_prepend", r = evbuffer_prepend(w.buf[b], "hdr", 3)); note(r); } break; }
       case 17: { int a = s.below(3), b = s.below(3); if (w.buf[a] && w.buf[b] && a != b) { OP("evbuffer_add_buffer", r = evbuffer_add_buffer(w.buf[a], w.buf[b])); note(r);
-                   OP("evbuffer_remove_buffer", r = evbuffer_remove_buffer(w.buf[a], w.buf[b], s.below(700))); OP("evbuffer_prepend_buffer", r = evbuffer_prepend_buffer(w.buf[b], w.buf[a])); note(r);
+                   OP("evbuffer_remove_buffer", r = evbuffer_remove_buffer(w.buf[a], w.buf[b], 1 + s.below(700))); note(r < 0); OP("evbuffer_prepend_buffer", r = evbuffer_prepend_buffer(w.buf[b], w.buf[a])); note(r);
                    OP("evbuffer_add_buffer_reference", r = evbuffer_add_buffer_reference(w.buf[a], w.buf[b])); note(r); } break; }
       case 18: { int b = s.below(3); if (w.buf[b]) { char tmp[128]; OP("evbuffer_remove", r = evbuffer_remove(w.buf[b], tmp, sizeof tmp)); OP("evbuffer_drain", r = evbuffer_drain(w.buf[b], s.below(300))); note(r);
                    OP("evbuffer_pullup", (void)evbuffer_pullup(w.buf[b], s.flag() ? -1 : (ev_ssize_t)s.below(2000))); size_t n; char *l; OP("evbuffer_readln", l = evbuffer_readln(w.buf[b], &n, EVBUFFER_EOL_CRLF)); sim_mem_free(l);
@@ -216,6 +216,9 @@ extern "C" int LLVMFuzzerTestOneInput(const uint8_t *data, size_t size) {
                    OP("evhttp_del_cb", r = evhttp_del_cb(w.http, "/zz")); note(r); OP("evhttp_set_gencb", evhttp_set_gencb(w.http, http_cb, nullptr)); OP("evhttp_add_server_alias", r = evhttp_add_server_alias(w.http, "alias.test")); note(r);
                    OP("evhttp_bind_socket(bad)", r = evhttp_bind_socket(w.http, "256.1.1.1", 0)); note(r); } } break;
       case 38: if (w.http) { OP("evhttp_free", evhttp_free(w.http)); w.http = nullptr; } break;
+      // persistent freeze state, so that every buffer op above also runs against frozen ends (documented: they fail with -1)
+      case 39: { int b = s.below(3); if (w.buf[b]) { OP("evbuffer_freeze", r = evbuffer_freeze(w.buf[b], s.flag())); note(r); } break; }
+      case 40: { int b = s.below(3); if (w.buf[b]) { OP("evbuffer_unfreeze", r = evbuffer_unfreeze(w.buf[b], s.flag())); note(r); } break; }
       default: { OP("event_base_loop", event_base_loop(w.base, EVLOOP_NONBLOCK)); break; }
     }
     uint64_t sf1 = 0; for (int k = 0; k < SYS__N; k++) sf1 += sim_sys_faults[k];
